@@ -521,6 +521,7 @@ class C12:
         clock = ctx["clock"]
         faults = {k: v for k, v in clock.fired.items() if k != "clock_reads"}
         faults["timer_fired_by_choice"] = sim.stats["timer_fired_by_choice"]
+        faults["track_loop_left_early"] = ctx["probes"].get("track_left_early", 0)
         probes = dict(ctx["probes"])
         probes["lock_contended"] = sim.stats["lock_contended"]
         probes["clock_reads"] = clock.fired["clock_reads"]
